@@ -143,7 +143,7 @@ func c16Load(docs []string) *c16Obs {
 // C16_order
 func C16_order() {
 	obj := "O" + nameToken("type name") // S: the (rank, name) ordering of the type table is decided for every name
-	sym.Assume(sym.And(obj != "On")) // (no clash with a keyword-like token)
+	sym.Assume(sym.And(obj != "On"))    // (no clash with a keyword-like token)
 	xQuery, xEnum, xUnion, xInput, xIface := false, false, false, false, false
 	switch sym.Choice("extend moves", 7) {
 	case 1:
